@@ -264,10 +264,34 @@ func checkRegenerated(mon *lib.Monitor, root, tmp, key string, g, h *normFile) {
 	}
 }
 
-func runRegen(f lib.Flags, res *lib.Result) {
+// notGenerated reports, with the file as the concrete failing configuration, that a checked-in router /
+// wrapper is not what the generators produce from the current descriptors (the property's last sentence).
+func notGenerated(mon *lib.Monitor, key, class string, g, h *normFile, detail string) {
+	in := map[string]any{"kind": "regen", "key": key}
+	path := ""
+	if h != nil {
+		in["file"] = h.Path
+		path = h.Path
+	}
+	if g != nil {
+		in["generated"] = g.Path
+		if path == "" {
+			path = g.Path
+		}
+	}
+	gen := "protoc-gen-router"
+	if strings.HasSuffix(path, "_wrap.pb.go") {
+		gen = "protoc-gen-wrapper"
+	}
+	exp, obs := "the generator's output and the checked-in file declare the same router / wrapper (normalised AST)", detail
+	mon.Violate("C12/"+gen+"/"+filepath.Base(filepath.Dir(path))+"/"+filepath.Base(path)+"/"+class,
+		"the checked-in routers and wrappers must be exactly what the generators produce from the current API descriptors", in, exp, obs)
+}
+
+func runRegen(f lib.Flags, res *lib.Result, drv *lib.Driver) {
 	tie := res.Tie("regeneration", "K3", "cmd/protoc-gen-router and cmd/protoc-gen-wrapper are built from the working tree and re-run on the compiled descriptors of every proto file named by a pkg/trait/*/gen.go go:generate line; each emitted file is compared with the checked-in *_router.pb.go / *_wrap.pb.go declaring the same type as a normalised AST (declarations and bodies, set of imported packages; comments, layout, import aliases/grouping and file names ignored); one evaluation per generated or checked-in file")
 	tie.Exhaustive = true
-	mon := res.Monitor("regenerated-output", "every generator output that differs from (or has no) checked-in file is compiled in the file's place (go build -overlay, nothing written into the tree): what the generators produce from the current API descriptors must be a router / wrapper that builds, or the service's RPCs can no longer be routed by generated code; an output with the same declarations as the checked-in file needs no build of its own (the harness is compiled against that file and drives it); one evaluation per generated file")
+	mon := res.Monitor("regenerated-output", "every generator output that differs from (or has no) checked-in file is compiled in the file's place (go build -overlay, nothing written into the tree): what the generators produce from the current API descriptors must be a router / wrapper that builds, or the service's RPCs can no longer be routed by generated code; an output with the same declarations as the checked-in file needs no build of its own (the harness is compiled against that file and drives it); a checked-in file that no generator output corresponds to, an output that is not checked in, and an output whose declarations differ from the checked-in file's are reported with that file as the failing configuration (the property's last sentence evaluated on the artefacts); one evaluation per generated or checked-in file")
 	root := lib.RepoRoot()
 	files, err := protoFilesToGenerate(root)
 	if err != nil {
@@ -339,16 +363,20 @@ func runRegen(f lib.Flags, res *lib.Result) {
 		case g == nil:
 			tie.Record(k, true, map[string]any{"file": h.Path}, "not-generated", "checked-in:"+h.digest())
 			tie.Count("checked-in-only")
+			mon.Eval(k, true, nil)
+			notGenerated(mon, k, "checked-in-not-generated", nil, h, "the generators no longer produce "+h.Path+" (no output declares "+k+")")
 		case h == nil:
 			tie.Record(k, true, map[string]any{"generated": g.Path}, g.digest(), "not-checked-in")
 			tie.Count("generated-only")
 			checkRegenerated(mon, root, tmp, k, g, nil)
+			notGenerated(mon, k, "generated-not-checked-in", g, nil, "the generators produce "+g.Path+" ("+k+"), which is not checked in")
 		default:
 			code := h.digest()
 			if code != g.digest() {
 				code += " " + diffNorm(g, h)
 				tie.Count("differs")
 				checkRegenerated(mon, root, tmp, k, g, h)
+				notGenerated(mon, k, "differs-from-generated", g, h, diffNorm(g, h))
 			} else {
 				if filepath.Base(g.Path) != filepath.Base(h.Path) {
 					tie.Count("same-ast-other-file-name")
@@ -362,6 +390,7 @@ func runRegen(f lib.Flags, res *lib.Result) {
 			tie.Record(k, true, map[string]any{"file": h.Path, "generated": g.Path}, g.digest(), code)
 		}
 	}
+	runNaming(res, drv, tmp, req)
 	res.Extra["proto_files"] = len(files)
 	res.Extra["generated_files"] = len(gen)
 }
